@@ -107,7 +107,9 @@ class Task(object):
             self.duration = self.calculate_runtime(machine)
         total_duration = self._calc_task_delay()
         if total_duration < 1:
-            yield env.timeout(1)
+            # a task occupies its machine for at least one timestep; like the
+            # else-branch, the step that ends at aft = now + 1 is the last one
+            yield env.timeout(0)
         else:
             yield env.timeout(total_duration - 1)
 
